@@ -124,9 +124,8 @@ Theorem C13_readFromConc_prefix : forall s p src off k s' n eopt foff,
 Proof. exact readFromConc_prefix. Qed.
 Print Assumptions C13_readFromConc_prefix.
 
-(* MODELLED: the concurrent write model applies the dispatched chunks in chunk order; the real workers apply them in any
-   order (the chunks are disjoint, and a later chunk written first only zero-fills a gap that the earlier chunk then
-   overwrites) - the model is tied to the code by family c13 on every run (count, error, offset, intact prefix). *)
+(* The concurrent write model applies the dispatched chunks in chunk order; that any other order of application - with any
+   subset of the chunks rejected - leaves the same file is C01_concurrent_writes_any_order (Proofs/TransferOrderP.v). *)
 Example C13_nonvacuous :
   let s := mkSrv (pattern 0 10) 100 (fun o => if o =? 5 then Some 4%N else None) (fun _ => None) in
   let o := mkOpts 3 2 true false false in
